@@ -91,6 +91,7 @@ class Exec(object):
         self.loop_counter = 0
         self.loop_ids = {}
         self.comp_counter = 0
+        self.vacuity = []          # reasons why some code was not checked because its path condition is contradictory (checker error)
         self.used_specs = set()    # spec sequences whose nth lemma was used as a hypothesis (the property module must list them in SPECSEQS)
         self.axioms = []           # closure definitions etc. (quantified, pattern-guarded)
         self.module = fi.module
@@ -631,6 +632,8 @@ class ExprMixin(object):
 
     def getattr(self, recv, name, st, node=None):
         r = self.deref(recv, st)
+        if isinstance(r, ExcV) and name == 'message':
+            return [(Sc(fresh(StrS, 'excmsg'), 'str'), st)]
         if isinstance(r, ExcV) and name == 'args':
             return [(Tup(list(r.args) if r.args else [Sc(fresh(StrS, 'excmsg'), 'str')]), st)]
         if isinstance(r, NTup):
@@ -877,6 +880,16 @@ class ExprMixin(object):
         raise Unsupported('starred expression outside a call/list')
 
 
+def _has_quantifier(f):
+    seen, stack = set(), [f]
+    while stack:
+        x = stack.pop()
+        if x.get_id() in seen: continue
+        seen.add(x.get_id())
+        if z3.is_quantifier(x): return True
+        stack.extend(x.children())
+    return False
+
 class _RangeSrc(object):
     """range(hi) as the source of a comprehension"""
     def __init__(self, hi): self.hi = hi
@@ -999,6 +1012,15 @@ class StmtMixin(object):
             if isinstance(r, Closure) or isinstance(r, FuncV):
                 raise Unsupported('attribute store on function object')
             raise Unsupported('attribute store on %r' % (r,))
+        if isinstance(target, ast.Subscript) and isinstance(target.value, ast.Subscript):
+            base = self.ev1(target.value.value, st); bd = self.deref(base, st)
+            if isinstance(bd, Obj) and getattr(self.reg.classes.get(bd.cls), 'stateful', False):
+                # parser[section][key] = value on a stateful library object: its assumed two-level store contract
+                c2 = self.reg.get('<ext>', '%s.__setitem2__' % bd.cls)
+                if c2 is None: raise Unsupported('no assumed contract for %s[..][..] = ..' % bd.cls)
+                r2 = self.call_contract(c2, None, [base, self.ev1(target.value.slice, st), self.ev1(target.slice, st), v], {}, st, target)
+                if len(r2) != 1: raise Unsupported('forking store contract')
+                return
         if isinstance(target, ast.Subscript):
             recv = self.ev1(target.value, st)
             r = self.deref(recv, st)
@@ -1055,8 +1077,11 @@ class StmtMixin(object):
         elif isinstance(v, Opt) and isinstance(test, ast.Compare):
             st.env[name] = NONE       # the branch where `x is None` holds
 
-    def feasible(self, st):
-        s = z3.Solver(); s.set('timeout', 2000); s.add(*st.pc)
+    def feasible(self, st, full=False):
+        """path pruning: False only when the path condition is refuted.  Quantified hypotheses (axioms, invariants) are left out
+        unless full=True: leaving hypotheses out can only keep more paths (sound), and keeps these checks fast."""
+        s = z3.Solver(); s.set('timeout', 2000 if not full else 1500)
+        s.add(*[f for f in st.pc if full or not _has_quantifier(f)])
         return s.check() != z3.unsat
 
     def st_Raise(self, s, st):
@@ -1366,8 +1391,13 @@ class StmtMixin(object):
         outs = []
         body_outs = []
         for sc in self.split_bounded(ordinal, si):
+            reachable = self.feasible(sc) if not self.contract.bounded_lists.get(ordinal) else False
             sc.pc += inv(NS(self, sc), self.old_ns)
-            if not self.feasible(sc): continue
+            if not self.feasible(sc, full=True):
+                # vacuity guard: an iteration that is reachable without the invariant but not with it means the invariant
+                # (or an axiom it brings in) is contradictory -- every obligation of the body would hold trivially
+                if reachable: self.vacuity.append('loop #%d: the invariant contradicts the path condition of an arbitrary iteration (body not checked)' % ordinal)
+                continue
             self.bind(s.target, elem(k, sc), sc)
             body_outs.extend(self.block(s.body, sc))
         for o in body_outs:
@@ -1384,8 +1414,10 @@ class StmtMixin(object):
         sx.env[idx] = Sc(kx, 'int')
         sx.pc += [kx == z3.If(hi >= lo, hi, lo)]
         for sc in self.split_bounded(ordinal, sx):
+            reachable = self.feasible(sc) if not self.contract.bounded_lists.get(ordinal) else False
             sc.pc += inv(NS(self, sc), self.old_ns)
-            if self.feasible(sc): outs.append(Outcome('normal', sc))
+            if self.feasible(sc, full=True): outs.append(Outcome('normal', sc))
+            elif reachable: self.vacuity.append('loop #%d: the invariant contradicts the path condition at loop exit (code after the loop not checked)' % ordinal)
         return outs
 
     def split_bounded(self, ordinal, st):
@@ -1568,6 +1600,8 @@ class CallMixin(object):
             if isinstance(a, PyStr): return [(Sc(z3.IntVal(len(a.s)), 'int'), st)]
             if isinstance(a, Sc) and a.py == 'str': return [(Sc(z3.Length(a.z), 'int'), st)]
             if isinstance(a, PyDict): return [(Sc(z3.IntVal(len(a.d)), 'int'), st)]
+            if isinstance(a, Obj) and getattr(self.reg.classes.get(a.cls), 'external', False) and self.reg.get('<ext>', '%s.__len__' % a.cls) is not None:
+                return self.call_contract(self.reg.get('<ext>', '%s.__len__' % a.cls), None, [args[0]], {}, st, node)
             raise Unsupported('len(%r)' % (a,))
         if name == 'StringIO':
             return [(st.new_cell(DocObj(EMPTY)), st)]
@@ -1883,6 +1917,13 @@ class CallMixin(object):
 
     def construct(self, cv, args, kw, st, node):
         """ClassName(args): contract on __init__ if registered, else inline __init__ on a fresh record"""
+        decl = self.reg.classes.get(cv.name) or next((d_ for d_ in self.reg.classes.values() if d_.pyname == cv.name and d_.stateful), None)
+        if decl is not None and decl.stateful:
+            # library object with mutable abstract state: a cell holding one term; the assumed constructor contract describes the initial state
+            ref = st.new_cell(Obj(fresh(ObjSort(decl.name), decl.name.lower()), decl.name))
+            c0 = self.reg.get('<ext>', '%s.__init__' % decl.name)
+            if c0 is None: raise Unsupported('stateful external class %s has no assumed constructor contract' % decl.name)
+            return [(ref, s) for _, s in self.call_contract(c0, None, [ref] + list(args), kw, st, node)]
         fi = cv.module.find_method(cv.name, '__init__')
         if self.is_exception(cv.name): return [(ExcV(cv.name, args), st)]
         c = self.reg.get(fi.file, fi.qualname) if fi else None
@@ -2195,6 +2236,7 @@ class Executor(Exec, ExprMixin, StmtMixin, CallMixin):
         st.pc += c.requires(NS(self, st))
         if c.definitions: st.pc += c.definitions()
         self.entry_pc = list(st.pc)
+        if not self.feasible(st, full=True): self.vacuity.append('the precondition (with the definitions it reveals) is unsatisfiable: nothing is checked')
         outs = self.block(fi.body, st) + self._raises
         n_normal = 0
         for o in outs:
